@@ -6,12 +6,13 @@ CONSTANTS Gens,      \* subset of {1, 2}: which generation's hooks run
           Flag,      \* "surplus" | "debt" | "dist" | "none"   (auction mapping flags of the behaviour)
           Generic,   \* TRUE: the environment may open one generic generation-2 auction
           Tm0,       \* token-mint data present at the start
+          Esm,       \* TRUE: the environment may execute the app's emergency shutdown (once)
           Nf0, Fund, MaxBids, MaxAuc, MaxT, Bidders, Emit
 
 C == [L |-> 10, DL |-> 20, ST |-> 20, DT |-> 30, bf1n |-> 1, bf1d |-> 10, bf2n |-> 1, bf2d |-> 5, A1 |-> 100, B1 |-> 30, A2 |-> 200]
 
-VARIABLES st, deviated
-vars == <<st, deviated>>
+VARIABLE st
+vars == <<st>>
 
 UBal == [uatom |-> Fund, ucmst |-> Fund, uharbor |-> Fund]
 Zero == [uatom |-> 0, ucmst |-> 0, uharbor |-> 0]
@@ -19,21 +20,21 @@ St0 == [t |-> 6, nf |-> Nf0, nfFound |-> TRUE,
         fl |-> [sur |-> Flag = "surplus", debt |-> Flag = "debt", dist |-> Flag = "dist", active |-> FALSE],
         bal |-> [u1 |-> UBal, u2 |-> UBal, u3 |-> UBal, ext |-> [uatom |-> 10000, ucmst |-> 10000, uharbor |-> 0],
                  col |-> [Zero EXCEPT !.ucmst = Nf0], a1 |-> Zero, a2 |-> Zero],
-        auc |-> <<>>, n1 |-> 0, n2 |-> 0, tm |-> Tm0]
+        auc |-> <<>>, n1 |-> 0, n2 |-> 0, tm |-> Tm0, esm |-> FALSE, nfo |-> [uharbor |-> 0, uatom |-> 0]]
 InitArgs == [c |-> C, nf0 |-> Nf0, fund |-> Fund, sur |-> Flag = "surplus", debt |-> Flag = "debt", dist |-> Flag = "dist", tm |-> Tm0]
 
 (* identity of a model state, compact (the harness only needs it to rebuild the transition graph) *)
-Key(s) == <<s.t, s.nf, s.fl.active, s.n1, s.n2, s.tm,
+Key(s) == <<s.t, s.nf, s.fl.active, s.n1, s.n2, s.tm, s.esm,
             [i \in 1..Len(s.auc) |-> <<s.auc[i].gen, s.auc[i].id, s.auc[i].bid, s.auc[i].pay, s.auc[i].bidder, s.auc[i].nb, s.auc[i].endT, s.auc[i].bidEndT>>],
             [u \in {"u1", "u2", "u3"} |-> <<s.bal[u][CMST], s.bal[u][HARBOR], s.bal[u][ATOM]>>],
             <<s.bal["col"][CMST], s.bal["a1"][CMST], s.bal["a1"][HARBOR], s.bal["a2"][CMST], s.bal["a2"][HARBOR], s.bal["a2"][ATOM]>>>>
 Out(a, args, pre, post) ==
   IF Emit THEN PrintT(<<"T", ToJson([a |-> a, args |-> args, pre |-> Key(pre), post |-> Key(post)])>>) ELSE TRUE
 
-Init == st = St0 /\ deviated = FALSE /\ Out("Init", InitArgs, St0, St0)
+Init == st = St0 /\ Out("Init", InitArgs, St0, St0)
 
-Step(a, args, post, dev) ==
-  /\ st' = post /\ deviated' = (deviated \/ dev)
+Step(a, args, post) ==
+  /\ st' = post
   /\ Out(a, args, st, post)
 
 (* bid amounts worth trying on auction a: equal, barely improving, just short of improving, clearly improving, far off *)
@@ -55,12 +56,12 @@ DoBid ==
       /\ LET denom == IF good THEN a.bidD ELSE a.lotD IN
          IF a.gen = 1 /\ a.kind = "surplus"
          THEN LET r == BidV1Surplus(st, C, u, a.id, amt, denom) IN
-              Step("BidV1Surplus", [u |-> u, id |-> a.id, amt |-> amt, denom |-> denom], r.st, FALSE)
+              Step("BidV1Surplus", [u |-> u, id |-> a.id, amt |-> amt, denom |-> denom], r.st)
          ELSE IF a.gen = 1
          THEN LET r == BidV1Debt(st, C, u, a.id, amt, denom, C.L, CMST) IN
-              Step("BidV1Debt", [u |-> u, id |-> a.id, amt |-> amt, denom |-> denom, exp |-> C.L, expDenom |-> CMST], r.st, FALSE)
+              Step("BidV1Debt", [u |-> u, id |-> a.id, amt |-> amt, denom |-> denom, exp |-> C.L, expDenom |-> CMST], r.st)
          ELSE LET r == BidV2(st, C, u, a.id, amt, denom) IN
-              Step("BidV2", [u |-> u, id |-> a.id, amt |-> amt, denom |-> denom], r.st, FALSE)
+              Step("BidV2", [u |-> u, id |-> a.id, amt |-> amt, denom |-> denom], r.st)
 
 (* attacker-chosen contents that name no auction / the wrong expected payment *)
 DoBadBid ==
@@ -68,25 +69,22 @@ DoBadBid ==
     \/ /\ 1 \in Gens /\ Flag = "debt" /\ st.n1 > 0
        /\ \E e \in {C.L - 1, C.L + 1} :
             LET r == BidV1Debt(st, C, u, st.n1, C.DL - 5, HARBOR, e, CMST) IN
-            Step("BidV1Debt", [u |-> u, id |-> st.n1, amt |-> C.DL - 5, denom |-> HARBOR, exp |-> e, expDenom |-> CMST], r.st, FALSE)
+            Step("BidV1Debt", [u |-> u, id |-> st.n1, amt |-> C.DL - 5, denom |-> HARBOR, exp |-> e, expDenom |-> CMST], r.st)
     \/ /\ 2 \in Gens
        /\ LET r == BidV2(st, C, u, st.n2 + 1, 7, HARBOR) IN
-          Step("BidV2", [u |-> u, id |-> st.n2 + 1, amt |-> 7, denom |-> HARBOR], r.st, FALSE)
+          Step("BidV2", [u |-> u, id |-> st.n2 + 1, amt |-> 7, denom |-> HARBOR], r.st)
 
-DoHookV1 == 1 \in Gens /\ Step("HookV1", [x |-> 0], HookV1(st, C), FALSE)
+DoHookV1 == 1 \in Gens /\ Step("HookV1", [x |-> 0], HookV1(st, C))
 
-ClosesDeviating(dt) ==          \* a generation-2 surplus close, or a debt close whose gov amount differs from the payment
-  \E i \in 1..Len(st.auc) : LET a == st.auc[i] IN
-     a.gen = 2 /\ st.t + dt > a.endT /\ a.nb > 0 /\ st.tm /\ (a.kind = "surplus" \/ (a.kind = "debt" /\ a.lot # a.pay))
-DoBlock == 2 \in Gens /\ st.t < MaxT /\ \E dt \in {C.A2 \div 2, C.A2 + 1} :
-             Step("Block", [dt |-> dt], Block(st, C, dt, "gov"), ClosesDeviating(dt))
-DoAdvance == 2 \notin Gens /\ st.t < MaxT /\ \E dt \in {C.B1 + 1, C.A1 + 1} : Step("Advance", [dt |-> dt], [st EXCEPT !.t = @ + dt], FALSE)
-DoGeneric == Generic /\ st.n2 = 0 /\ LET r == StartGeneric(st, C, 7, 12) IN Step("StartGeneric", [lot |-> 7, minBid |-> 12], r.st, FALSE)
-DoSurplusFund == Flag = "dist" /\ LET r == SurplusFund(st, C) IN Step("SurplusFund", [x |-> 0], r.st, FALSE)
-DoSeed == Flag = "dist" /\ st.nf < 60 /\ st.bal["ext"][CMST] < 10040 /\ Step("SeedFees", [x |-> 13], SeedFees(st, 13), FALSE)
-DoMint == ~st.tm /\ Step("MintGenesis", [x |-> 0], MintGenesis(st).st, FALSE)
+DoBlock == 2 \in Gens /\ st.t < MaxT /\ \E dt \in {C.A2 \div 2, C.A2 + 1} : Step("Block", [dt |-> dt], Block(st, C, dt))
+DoAdvance == 2 \notin Gens /\ st.t < MaxT /\ \E dt \in {C.B1 + 1, C.A1 + 1} : Step("Advance", [dt |-> dt], [st EXCEPT !.t = @ + dt])
+DoGeneric == Generic /\ st.n2 = 0 /\ LET r == StartGeneric(st, C, 7, 12) IN Step("StartGeneric", [lot |-> 7, minBid |-> 12], r.st)
+DoSurplusFund == Flag = "dist" /\ LET r == SurplusFund(st, C) IN Step("SurplusFund", [x |-> 0], r.st)
+DoSeed == Flag = "dist" /\ st.nf < 60 /\ st.bal["ext"][CMST] < 10040 /\ Step("SeedFees", [x |-> 13], SeedFees(st, 13))
+DoEsm == Esm /\ ~st.esm /\ Step("EsmOn", [x |-> 0], EsmOn(st))
+DoMint == ~st.tm /\ Step("MintGenesis", [x |-> 0], MintGenesis(st).st)
 
-Next == DoBid \/ DoBadBid \/ DoHookV1 \/ DoBlock \/ DoAdvance \/ DoGeneric \/ DoMint \/ DoSurplusFund \/ DoSeed
+Next == DoBid \/ DoBadBid \/ DoHookV1 \/ DoBlock \/ DoAdvance \/ DoGeneric \/ DoMint \/ DoSurplusFund \/ DoSeed \/ DoEsm
 Spec == Init /\ [][Next]_vars
 
 StateBound == st.n1 + st.n2 <= MaxAuc /\ st.t <= MaxT
@@ -95,6 +93,6 @@ StateBound == st.n1 + st.n2 <= MaxAuc /\ st.t <= MaxT
 InvCustodyCovers == CustodyCovers(st)
 InvCustodyExact == CustodyExact(st)
 InvNetFeesNonNeg == st.nf >= 0
-InvCollectorBacked == ~deviated => CollectorBacked(st)
+InvCollectorBacked == CollectorBacked(st)
 InvOneAuction == Cardinality({i \in 1..Len(st.auc) : st.auc[i].kind # "generic"}) <= 1
 =============================================================================
